@@ -154,7 +154,17 @@ func check(prop, tier string) int {
 			violate(en.Func, "hint-mismatch", "function "+en.Func+" named by the property map has no contract or no longer exists", false)
 			continue
 		}
-		fr := prog.VerifyFunc(fi)
+		fr := prog.VerifyFuncRebinding(fi, func(obs []*vc.Obligation) bool {
+			for _, r := range vc.SolveAll(obs, smtDir, timeout, 14) {
+				if r.Ob.MustFail || r.Ob.Kind == "aux" {
+					continue
+				}
+				if r.Status != "unsat" {
+					return false
+				}
+			}
+			return true
+		})
 		if fr.Opaque {
 			assumed["assumed contract (body not verified): "+fr.Func+" — "+fr.Trusted] = true
 			continue
